@@ -274,8 +274,8 @@ def small_groups(tier):
         [list(p) for p in itertools.combinations(SMALL, 2)]
     kmax = 3 if tier == 'quick' else 4
     # rules that can match a species of <= 2 heavy atoms
-    core_rules = ['CC', 'CCanydown', 'CCdown', 'CCup', 'CH', 'CHclosed',
-                  'CO', 'OH']
+    core_rules = ['ANYup', 'CC', 'CCanydown', 'CCdown', 'CCup', 'CH',
+                  'CHclosed', 'CO', 'OH']
     for ss in seedsets:
         for k in range(1, kmax + 1):
             for sub in itertools.combinations(core_rules, k):
